@@ -213,6 +213,39 @@ def gen_case(rng, K, maxlen):
     return {'op': 'z_history', 'const': K, 'prim': prim, 'steps': steps, 'final': [q(z), t], 'probe': xs}
 
 
+def scripted_cases(rng, K):
+    """every ordering of up to four assignments (two redshifts, both types) followed by a sample, on a table and on an
+    analytic source, constructed with and without an initial flux-conserving redshift"""
+    import itertools
+    out = []
+    acts = [('set_z', F(1)), ('set_z', F(3)), ('set_ztype', 'wavelength_only'), ('set_ztype', 'conserve_flux')]
+    for init in (None, (F(1), 'conserve_flux'), (F(1, 2), 'wavelength_only')):
+        for n in (2, 3, 4):
+            for seq in itertools.permutations(acts, n):
+                if rng.random() > 0.25:
+                    continue
+                prim = O.gen_prim(rng, 'source', transcendental=False, redshift=False)
+                if prim['leaf']['leaf'] in ('box', 'trapezoid'):
+                    prim = {'prim': 'source', 'leaf': O.gen_table_leaf(rng)}
+                z, t = F(0), 'wavelength_only'
+                if init:
+                    z, t = init
+                    prim['z'], prim['ztype'] = q(z), t
+                O.fill_ss(prim)
+                xs = qs(O.sample_grid(rng, 6, 300, 60000))
+                steps = []
+                for k, v in seq:
+                    if k == 'set_z':
+                        z = v
+                        steps.append({'do': 'set_z', 'z': q(v)})
+                    else:
+                        t = v
+                        steps.append({'do': 'set_ztype', 't': v})
+                steps.append({'do': 'sample', 'xs': xs})
+                out.append({'op': 'z_history', 'const': K, 'prim': prim, 'steps': steps, 'final': [q(z), t], 'probe': xs})
+    return out
+
+
 def run(rep):
     thorough = rep.tier == 'thorough'
     rng = rep.rng('c05')
@@ -220,8 +253,9 @@ def run(rep):
     cases = core.load_corpus('C05')
     for c in cases:
         c['const'] = K
+    cases += scripted_cases(rng, K)
     cases += [gen_case(rng, K, 40 if thorough else 8) for _ in range(30000 if thorough else 1500)]
-    rep.rule = ('random histories of z / z_type assignments (incl. non-real z and unknown z_type), samples, waveset and integrate '
+    rep.rule = ('a quarter of all orderings of 2-4 assignments (two redshifts, both types) ending in a sample, from three initial states; random histories of z / z_type assignments (incl. non-real z and unknown z_type), samples, waveset and integrate '
                 'queries (<= 8 steps quick, <= 40 thorough) on SourceSpectrum objects of every leaf kind and (25%) composite sources whose operands may already be redshifted, and (15%) sources constructed from an already redshifted spectrum object, constructed with or '
                 'without redshift; z from {0, 1/8, 1/2, 1, 3, 7, 20, -1/4, -1/2, -7/8}. Non-trivial: at least one assignment step.')
 
